@@ -28,10 +28,15 @@ LAYOUTS = [
     ("shared-goal", "A0 G A1"),
     ("stacked-goals", "G1 G0\nA0 A1"),
 ]
+THOROUGH_LAYOUTS = [
+    ("wide-fences", "A0 { . G1\nG0 ~ # A1"),
+    ("tall-mixed", "A0 G1\n] .\nu #\nG0 A1"),
+]
+LAYOUTS = LAYOUTS + THOROUGH_LAYOUTS
 
 
 def bounds(tier):
-    return dict(layouts=[n for n, _ in LAYOUTS], placements='all pairs of in-grid cells outside obstacles (two agents)', joint_actions=25,
+    return dict(layouts=[n for n, _ in LAYOUTS[:len(LAYOUTS) - (len(THOROUGH_LAYOUTS) if tier == 'quick' else 0)]], placements='all pairs of in-grid cells outside obstacles (two agents)', joint_actions=25,
                 fence_success_prob='symbolic [0,1]', factor_tables='pairs of tables with 1-3 rows over nested-dict events: shared / disjoint / partially overlapping variables')
 
 
@@ -208,7 +213,7 @@ def factor_mix(sx, tsel):
 
 def jobs(tier):
     o = dict(timeout_ms=30000, budget_s=1500, max_paths=40000)
-    for i in range(len(LAYOUTS)):
+    for i in range(len(LAYOUTS) - (len(THOROUGH_LAYOUTS) if tier == 'quick' else 0)):
         yield ('transitions', dict(layout=i), dict(o, cost=20, twin=3))
     yield ('transitions', dict(layout=2, warm=3), dict(o, cost=20, twin=3))
     yield ('transitions', dict(layout=3, warm=2), dict(o, cost=20, twin=3))
